@@ -5,7 +5,7 @@
    3. every valid assignment is a partition; fit_spec is a valid assignment and no valid
       assignment is better                                              [fit_partition, fit_optimal]
    4. IsSatisfied                                                        [satisfied_iff]        *)
-From Coq Require Import String Permutation.
+From Coq Require Import String Permutation Sorting.Sorted.
 From PDV Require Import lib.Base lib.C12_Order gen.Gen_C12 model.C12_Fit.
 Local Open Scope list_scope.
 
@@ -493,14 +493,6 @@ Section Spec.
         sublist sub (candidates r sel) /\ (length sub <= rcount r)%nat /\ valid rest (sel_with sub sel) A'
     | _, _ => False
     end.
-  Fixpoint fits_of (rules : list rule) (A : list (list fpeer)) : list rulefit :=
-    match rules, A with
-    | r :: rest, sub :: A' => new_rule_fit r sub :: fits_of rest A'
-    | _, _ => []
-    end.
-  Fixpoint final_sel (sel : list nat) (A : list (list fpeer)) : list nat :=
-    match A with [] => sel | sub :: A' => final_sel (sel_with sub sel) A' end.
-
   Lemma candidates_sub_unselected r sel : sublist (candidates r sel) (unselected sel).
   Proof.
     apply sublist_filter_weaken. intros p H. apply andb_true_iff in H as [_ H]. exact H.
@@ -666,7 +658,7 @@ Proof. apply mk_fpeers_from_store. Qed.
 Lemma insert_peer_perm p l : Permutation (insert_peer p l) (p :: l).
 Proof.
   induction l as [|q r IH]; cbn; [apply Permutation_refl|].
-  destruct (pid p <? pid q)%Z; [apply Permutation_refl|].
+  destruct (pid q <? pid p)%Z; [|apply Permutation_refl].
   eapply Permutation_trans; [apply perm_skip; exact IH|apply perm_swap].
 Qed.
 Lemma sort_peers_perm l : Permutation (sort_peers l) l.
@@ -796,4 +788,141 @@ Proof.
   destruct (fit_partition_pf stores leader ps rules) as (fits & orph & E & Hl & _).
   exists fits. rewrite E. cbn [fst]. split; [|exact Hl].
   clear. induction fits as [|f r IH]; cbn; [reflexivity|]. rewrite IH. reflexivity.
+Qed.
+
+(* ---------- 5. assumptions removed or quantified (Pass C) ---------- *)
+
+(* (a) sort.Slice is not stable.  A list that is already ordered by peer id is a fixed point of
+   sort_peers, so whichever order the unstable sort leaves among peers of equal id, FitRegion's behaviour
+   is `fit_region` of that arrangement — and every theorem above holds for every arrangement. *)
+Definition pid_le (a b : peer) : Prop := (pid a <= pid b)%Z.
+
+Lemma insert_peer_head p l : (forall q, In q l -> pid_le p q) -> insert_peer p l = p :: l.
+Proof.
+  destruct l as [|q r]; intros H; [reflexivity|]. cbn.
+  pose proof (H q (or_introl eq_refl)) as L. unfold pid_le in L.
+  destruct (Z.ltb_spec (pid q) (pid p)); [lia|reflexivity].
+Qed.
+
+Theorem sort_peers_sorted l : StronglySorted pid_le l -> sort_peers l = l.
+Proof.
+  induction 1 as [|p r S IH F]; [reflexivity|]. cbn [sort_peers fold_right]. fold (sort_peers r). rewrite IH.
+  apply insert_peer_head. rewrite Forall_forall in F. exact F.
+Qed.
+
+Theorem unstable_sort_covered stores leader ps ps' rules :
+  Permutation ps ps' -> StronglySorted pid_le ps' ->
+  fit_imp stores (mk_fpeers_from 0 stores leader ps') rules = fit_region stores leader ps' rules
+  /\ Permutation (map pid ps') (map pid ps).
+Proof.
+  intros P S. split; [|apply Permutation_map, Permutation_sym; exact P].
+  unfold fit_region, mk_fpeers. rewrite (sort_peers_sorted ps' S). reflexivity.
+Qed.
+
+(* (b) isolation scores are exact in float64: 0 <= score <= C(n,2) * base^(levels-1) *)
+Lemma pair_score_bounds p1 p2 labels :
+  (0 <= pair_score p1 p2 labels <= replicaBaseScore ^ (Z.of_nat (length labels) - 1))%Z.
+Proof.
+  unfold pair_score. assert (B : (1 < replicaBaseScore)%Z) by reflexivity.
+  destruct (compare_location p1 p2 labels) as [i|] eqn:E.
+  - assert (Hi : (i < length labels)%nat).
+    { unfold compare_location in E. revert E. generalize (labels_of (fstore p1)) (labels_of (fstore p2)).
+      assert (G : forall ls n l1 l2 j, compare_location_from n l1 l2 ls = Some j -> (n <= j < n + length ls)%nat).
+      { induction ls as [|k r IH]; intros n l1 l2 j H; cbn in H; [discriminate|].
+        destruct (negb (is_empty (get_label_value l1 k)) && negb (is_empty (get_label_value l2 k)) && negb (fold_eqb (get_label_value l1 k) (get_label_value l2 k))).
+        - inversion H; subst. cbn. lia.
+        - apply IH in H. cbn. lia. }
+      intros l1 l2 H. apply G in H. lia. }
+    split; [apply Z.pow_nonneg; lia|]. apply Z.pow_le_mono_r; lia.
+  - split; [lia|]. apply Z.pow_nonneg. lia.
+Qed.
+
+Lemma fold_pair_bounds p1 labels r : forall acc,
+  (acc <= fold_left (fun a p2 => a + pair_score p1 p2 labels) r acc
+       <= acc + Z.of_nat (length r) * replicaBaseScore ^ (Z.of_nat (length labels) - 1))%Z.
+Proof.
+  induction r as [|p2 r IH]; intros acc; cbn [fold_left length]; [lia|].
+  pose proof (pair_score_bounds p1 p2 labels) as B. specialize (IH (acc + pair_score p1 p2 labels)%Z).
+  rewrite Nat2Z.inj_succ. nia.
+Qed.
+
+Lemma score_pairs_bounds ps labels :
+  (0 <= score_pairs ps labels
+     <= Z.of_nat (length ps * (length ps - 1) / 2) * replicaBaseScore ^ (Z.of_nat (length labels) - 1))%Z.
+Proof.
+  set (M := (replicaBaseScore ^ (Z.of_nat (length labels) - 1))%Z).
+  assert (HM : (0 <= M)%Z) by (subst M; apply Z.pow_nonneg; reflexivity || (assert (1 < replicaBaseScore)%Z by reflexivity; lia)).
+  assert (G : forall l, (0 <= score_pairs l labels <= Z.of_nat (length l * (length l - 1) / 2) * M)%Z).
+  { induction l as [|p r IH]; cbn [score_pairs length]; [cbn; lia|].
+    pose proof (fold_pair_bounds p labels r 0%Z) as B. fold M in B.
+    assert (E : (S (length r) * (S (length r) - 1) / 2 = length r + length r * (length r - 1) / 2)%nat).
+    { replace (S (length r) - 1)%nat with (length r) by lia.
+      destruct (length r) as [|n]; [reflexivity|].
+      replace (S (S n) * S n)%nat with (S n * 2 + S n * (S n - 1))%nat by (cbn; nia).
+      rewrite Nat.div_add_l by lia. reflexivity. }
+    rewrite E, Nat2Z.inj_add. nia. }
+  apply G.
+Qed.
+
+Theorem isolation_score_bounds ps labels :
+  (0 <= isolation_score ps labels
+     <= Z.of_nat (length ps * (length ps - 1) / 2) * replicaBaseScore ^ (Z.of_nat (length labels) - 1))%Z.
+Proof.
+  unfold isolation_score. pose proof (score_pairs_bounds ps labels) as B.
+  assert (HM : (0 <= replicaBaseScore ^ (Z.of_nat (length labels) - 1))%Z) by (apply Z.pow_nonneg; assert (1 < replicaBaseScore)%Z by reflexivity; lia).
+  destruct labels; [cbn; nia|]. destruct (length ps <=? 1)%nat; [nia|exact B].
+Qed.
+
+(* with at most 7 location labels and 6 peers per rule every score (and every partial sum) is an integer
+   below 2^53, i.e. exactly representable: the float64 comparison of compareRuleFit is the comparison on Z *)
+Corollary isolation_score_exact_in_float64 ps labels :
+  (length ps <= 6)%nat -> (length labels <= 7)%nat -> (0 <= isolation_score ps labels < 2 ^ 53)%Z.
+Proof.
+  intros Hp Hl. pose proof (isolation_score_bounds ps labels) as [B1 B2]. split; [exact B1|].
+  assert (E1 : (Z.of_nat (length ps * (length ps - 1) / 2) <= 15)%Z).
+  { assert (length ps * (length ps - 1) / 2 <= 15)%nat; [|lia].
+    apply Nat.div_le_upper_bound; [lia|]. nia. }
+  assert (E2 : (replicaBaseScore ^ (Z.of_nat (length labels) - 1) <= replicaBaseScore ^ 6)%Z).
+  { destruct labels as [|x l]; [vm_compute; discriminate|].
+    apply Z.pow_le_mono_r; [reflexivity|]. cbn [length] in *. lia. }
+  assert (E3 : (0 <= replicaBaseScore ^ (Z.of_nat (length labels) - 1))%Z) by (apply Z.pow_nonneg; assert (1 < replicaBaseScore)%Z by reflexivity; lia).
+  assert (E4 : (15 * replicaBaseScore ^ 6 < 2 ^ 53)%Z) by (vm_compute; reflexivity).
+  nia.
+Qed.
+
+(* (c) the brute-force oracle of the monitor enumerates exactly the valid assignments *)
+Lemma sublists_spec {A} (l : list A) : forall s, In s (sublists l) <-> sublist s l.
+Proof.
+  induction l as [|x r IH]; intros s; cbn [sublists].
+  - split; [intros [<-|[]]; constructor|]. intros H. inversion H; subst. left; reflexivity.
+  - rewrite in_app_iff, in_map_iff. split.
+    + intros [[s' [<- H]]|H]; [apply sl_take; apply IH; exact H|apply sl_skip; apply IH; exact H].
+    + intros H. inversion H as [l'|s' x' l' H'|s' x' l' H']; subst.
+      * right. apply IH. constructor.
+      * right. apply IH. exact H'.
+      * left. exists s'. split; [reflexivity|apply IH; exact H'].
+Qed.
+
+Theorem all_valid_spec peers rules : forall sel A, In A (all_valid peers rules sel) <-> valid peers rules sel A.
+Proof.
+  induction rules as [|r rest IH]; intros sel A; cbn [all_valid valid].
+  - destruct A as [|a A'].
+    + split; intros _; [exact I|left; reflexivity].
+    + split; [intros [H|[]]; discriminate|intros []].
+  - rewrite in_flat_map. split.
+    + intros [sub [Hs Hin]]. apply filter_In in Hs as [Hs Hl]. apply in_map_iff in Hin as [A' [<- HA']].
+      split; [apply sublists_spec; exact Hs|]. split; [apply Nat.leb_le; exact Hl|apply IH; exact HA'].
+    + destruct A as [|sub A']; [tauto|]. intros (Hs & Hl & Hv). exists sub. split.
+      * apply filter_In. split; [apply sublists_spec; exact Hs|apply Nat.leb_le; exact Hl].
+      * apply in_map. apply IH. exact Hv.
+Qed.
+
+(* FitRegion's own answer always passes the oracle *)
+Theorem fit_region_passes_oracle stores leader ps rules :
+  exists fits orph, fit_region stores leader ps rules = (map Some fits, orph) /\
+                    not_worse_than_any (mk_fpeers stores leader ps) rules (fits, orph) = true.
+Proof.
+  destruct (fit_optimal_pf stores leader ps rules) as (fits & orph & E & H). exists fits, orph. split; [exact E|].
+  unfold not_worse_than_any. apply forallb_forall. intros A HA. apply all_valid_spec in HA. specialize (H A HA).
+  destruct (compare_region_fit _ _); try reflexivity. congruence.
 Qed.
